@@ -103,6 +103,7 @@ pub fn one_case(m: &Model, origin: &str) -> Case {
         coq::b(before == after)
     );
     Case {
+        post: String::new(),
         term,
         json: json!({"origin": origin, "model": serde_json::from_str::<serde_json::Value>(&before).unwrap(),
                      "impl_warnings": ws.iter().map(|w| json!({"id": w.id, "msg": w.msg})).collect::<Vec<_>>() }),
